@@ -204,7 +204,7 @@ var tinyPrograms = []string{
 // compilerClient: the mapper's other client is the compiler. One compiler with a source map compiles
 // several programs in a seeded order; every map must decode to exactly what a fresh compiler records
 // for that program (a map is the record of ONE compilation).
-func (e *Engine) compilerClient(ch *kernel.Chooser, st *kernel.Stats) kernel.RunResult {
+func (e *Engine) compilerClient(ch *kernel.Chooser, st *kernel.Stats) (res kernel.RunResult) {
 	st.Inc("client.compiler")
 	pretty := ch.Bool(1, 2)
 	mk := func() *compiler.Compiler {
@@ -216,8 +216,22 @@ func (e *Engine) compilerClient(ch *kernel.Chooser, st *kernel.Stats) kernel.Run
 	}
 	shared := mk()
 	n := 2 + ch.Choose(4)
-	res := kernel.RunResult{Evals: int64(n), Steps: int64(n), Nontrivial: true}
+	res = kernel.RunResult{Evals: int64(n), Steps: int64(n), Nontrivial: true}
 	var order []int
+	var held []heldMap
+	defer func() {
+		if len(res.Violations) > 0 {
+			return
+		}
+		for _, h := range held {
+			if d := h.changed(); d != "" {
+				res.Violations = append(res.Violations, kernel.Violation{Property: "C09", Kind: "client", Signature: "compiler-client|held-map-changed",
+					Detail:       fmt.Sprintf("the map of compilation #%d of this compiler was verified when it was returned and reads differently after later compilations: %s", h.at, d),
+					Materialised: map[string]any{"programs_in_order": order, "pretty": pretty}})
+				return
+			}
+		}
+	}()
 	for i := 0; i < n; i++ {
 		k := ch.Choose(len(tinyPrograms))
 		order = append(order, k)
@@ -244,6 +258,9 @@ func (e *Engine) compilerClient(ch *kernel.Chooser, st *kernel.Stats) kernel.Run
 			problem = ""
 		case fmt.Sprint(gs) != fmt.Sprint(ws) || fmt.Sprint(got.Names) != fmt.Sprint(want.Names):
 			problem = fmt.Sprintf("compilation #%d of this compiler (program %q) gave mappings %q names %q; a fresh compiler records %q names %q", i+1, tinyPrograms[k], got.Mappings, got.Names, want.Mappings, want.Names)
+		}
+		if problem == "" {
+			held = append(held, heldMap{sm: got, version: got.Version, mappings: got.Mappings, names: append([]string(nil), got.Names...), at: i + 1})
 		}
 		if problem != "" {
 			res.Violations = append(res.Violations, kernel.Violation{Property: "C09", Kind: "client", Signature: "compiler-client|map-is-not-the-record-of-this-compilation",
@@ -286,6 +303,9 @@ func (e *Engine) Run(prop string, ch *kernel.Chooser, st *kernel.Stats) kernel.R
 				Materialised: map[string]any{"history": append([]Op(nil), ops...)}})
 		}
 	}
+	// every map handed out (and verified) so far; it is the record of the history up to that point and
+	// must still say the same when the history has gone on
+	var held []heldMap
 	check := func(final bool) {
 		snapshots++
 		sm := real.SourceMap()
@@ -348,6 +368,7 @@ func (e *Engine) Run(prop string, ch *kernel.Chooser, st *kernel.Stats) kernel.R
 		if final && len(got) > 0 && len(got) <= 60 {
 			crossCheck(sm, got, st)
 		}
+		held = append(held, heldMap{sm: sm, version: sm.Version, mappings: sm.Mappings, names: append([]string(nil), sm.Names...), at: len(ops)})
 	}
 	for i := 0; i < nOps && len(viol) == 0; i++ {
 		k := ch.Weighted(5, 4, 4, 5, 2, 2)
@@ -484,11 +505,42 @@ func (e *Engine) Run(prop string, ch *kernel.Chooser, st *kernel.Stats) kernel.R
 		check(false)
 		st.Inc("probe.snapshot_taken_twice")
 	}
+	if len(viol) == 0 {
+		for _, h := range held {
+			if d := h.changed(); d != "" {
+				report("snapshot", "held-map-changed", fmt.Sprintf("the map returned by SourceMap() after %d operations was verified then and reads differently after %d operations: %s", h.at, len(ops), d))
+				break
+			}
+		}
+		if len(held) >= 3 {
+			st.Inc("probe.three_held_maps_reread_at_end")
+		}
+	}
 	res := kernel.RunResult{Violations: viol, Fingerprint: fp, Nontrivial: len(m.segs) >= 2, Steps: int64(len(ops)), Evals: 1}
 	if len(ops) <= 14 {
 		res.Sample = map[string]any{"history": ops}
 	}
 	return res
+}
+
+type heldMap struct {
+	sm       *sourcemap.SourceMap
+	version  int
+	mappings string
+	names    []string
+	at       int
+}
+
+func (h heldMap) changed() string {
+	switch {
+	case h.sm.Version != h.version:
+		return fmt.Sprintf("version %d -> %d", h.version, h.sm.Version)
+	case h.sm.Mappings != h.mappings:
+		return fmt.Sprintf("mappings %q -> %q", h.mappings, h.sm.Mappings)
+	case fmt.Sprintf("%q", h.sm.Names) != fmt.Sprintf("%q", h.names):
+		return fmt.Sprintf("names %q -> %q", h.names, h.sm.Names)
+	}
+	return ""
 }
 
 // noteShape counts the rare shapes the property text singles out.
